@@ -824,8 +824,6 @@ Qed.
 Lemma in_range_well_typed r ops : in_range r ops = true -> well_typed r ops = true.
 Proof. unfold in_range. rewrite andb_true_iff. tauto. Qed.
 
-Definition pp_body (bk : banks) (body : list (row * list operand)) : list string :=
-  map (fun c => pp_instr bk (fst c) (snd c)) body.
 
 (* every printed line of a body parses back to its instruction *)
 Theorem parse_print_body pr bk gi t body :
@@ -849,16 +847,6 @@ Proof. induction l as [|x l IH]; [reflexivity|]. cbn [map opt_all]. now rewrite 
 (* parse every line with the text parser + assembler, put the instructions in a
    subroutine with the given metadata, encode it, decode the bytes, print the
    decoded body; None as soon as one step fails *)
-Definition text_binary_text (pr : aparams) (bk : banks) (gi : list string) (h : header) (t : list row)
-    (v0 v1 app : Z) (lines : list string) : option (list string) :=
-  match opt_all (map (parse_line pr bk gi t) lines) with
-  | None => None
-  | Some body =>
-      match decode_sub h t (encode_sub h (mkSub v0 v1 app body)) with
-      | None => None
-      | Some s' => Some (pp_body bk (s_body s'))
-      end
-  end.
 
 (* print, parse every line, encode, decode, print again: the same lines *)
 Theorem text_binary_text_stable pr bk gi h t (s : sub) :
